@@ -37,6 +37,9 @@ def run(ck, ctx):
                      "inside one critical section (a value stored between an unlocked check and the parking would never wake the "
                      "requester) and returns Ready only with the value taken out of the slot; ResponseSlot::reset empties the value; "
                      "a slot is pushed into the pool only fresh or after reset")
+    ck.rule("R02.11", "connections share nothing through the buffer pool: a BytesMut that goes back into a buffer pool is fresh or cleared (or every pop "
+                      "clears it) - bytes a previous connection left in a recycled read buffer are executed as if the next client had sent them, "
+                      "and its own first command is swallowed: replies no client's history explains (shared with C04 R04.9)")
     ck.rule("R02.9", "a submitted command is awaited to its reply: in the request path (sharded_actor, replicated_shard_actor, response_pool, "
                      "replicated_state) a reply future is polled directly, never through a combinator that can complete without it (timeout, "
                      "select, abortable, now_or_never): the message stays in the shard's FIFO mailbox, so a caller that gives up is answered "
@@ -60,6 +63,9 @@ def run(ck, ctx):
         _r027(ck, prog, cfg)
         _r028(ck, prog, cfg)
         _r029(ck, prog, cfg)
+        from . import c04 as _c04
+        from .core import Alias as _Alias4
+        _c04._r049(_Alias4(ck, "R04.9", "R02.11"), prog, cfg)
         _r0210(ck, prog, cfg)
 
 
